@@ -77,5 +77,5 @@ META = dict(
          "remaining target from the deposit (limit_fill_overcharge).",
     note="Partial: lend-side book-keeping at the close of a first-generation lend auction is not modelled (external inputs); cTokens are not "
          "tracked; second-generation ESM trigger is out of scope (C14). The V2 ledger theorems carry the hypothesis 'at most one limit bid "
-         "per premium' because the code is wrong without it (D7); first-generation lend custody is exact only up to the unpaid bonus pot (D30).",
+         "per premium' because the code is wrong without it (D7); first-generation lend custody is exact only up to the unpaid bonus pot (D32).",
 )
